@@ -124,9 +124,44 @@ def gen(rng, i):
     return {'cfg': cfg, 'rounds': rounds}
 
 
+HELPER_RULE = ('activation helper: python-random invocations of dbus-daemon-launch-helper-for-tests with 1-3 service directories: valid and '
+               'invalid name arguments (22 malformed shapes incl. path traversal), service files with matching / mismatching / missing Name, '
+               'missing Exec or User, duplicate keys and sections, localised keys, comments, CRLF, spacing around "=", eight kinds of unparsable '
+               'file shadowing a good one in a later directory, and 42 Exec tails with odd quoting (quotes, backslashes, comments, escapes of the '
+               'file syntax, unclosed quotes, trailing blanks); HelperOps.tla (service-file parser, command-line splitter, decision chain) must '
+               'give the exit code, and for an executed program the exact argument vector recorded by the program itself')
+
+
 def run(ctx):
-    return busprop.run(ctx, gen, 'C19.cfg', 40, 1200, RULE, mc_cfg_thorough='C19t.cfg')
+    import random
+    import helperdrv
+    import vlib
+    res = busprop.run(ctx, gen, 'C19.cfg', 40, 1200, RULE, mc_cfg_thorough='C19t.cfg')
+    rng = random.Random(ctx.seed + 19)
+    cases = helperdrv.run_cases(ctx.build, rng, 500 if ctx.quick else 20000)
+    bad = vlib.check_cases(cases, shard=125 if ctx.quick else 1500)
+    for i in bad:
+        c = cases[i]
+        res['violations'].append({'signature': 'helper:code=%s:ran=%s:name=%s' % (c['code'], c['ran'], bytes(c['name'])[:40].hex()),
+                                  'case': c, 'what': 'exit code or executed argument vector of the launch helper differs from HelperOps.tla'})
+    for c in cases:
+        if c['code'] not in range(0, 12) and not any(v.get('case') is c for v in res['violations']):
+            res['violations'].append({'signature': 'helper:crash:code=%s' % c['code'], 'case': c, 'what': 'the launch helper died: ' + c['_err'][-300:]})
+    cov = res['coverage']
+    cov['helper_cases'] = len(cases)
+    cov['helper_cases_executed_program'] = sum(c['ran'] for c in cases)
+    cov['helper_exit_codes_seen'] = sorted({c['code'] for c in cases})
+    cov['evaluations'] += len(cases)
+    cov['distinct_nontrivial'] += len({repr((c['name'], c['dirs'])) for c in cases})
+    cov['rule'] += ' || ' + HELPER_RULE
+    return res
 
 
 def replay(ctx, path):
+    import json
+    import vlib
+    v = json.load(open(path))
+    if 'case' in v:
+        bad = vlib.check_cases([v['case']], shard=10)
+        return {'coverage': {'evaluations': 1}, 'violations': [v] if bad else []}
     return busprop.replay(ctx, path)
